@@ -467,6 +467,21 @@ class Normalizer:
                 return self._sqrt(args[0], e)
             if name == "exp":
                 return self._exp(args[0], e)
+            if name in ("Phi", "phi") and len(args) == 1:
+                # A-Phi reflection made syntactic: Phi(-a) = 1 - Phi(a), phi(-a) = phi(a), Phi(0) = 1/2
+                a0 = args[0]
+                if a0.is_zero():
+                    if name == "Phi":
+                        return Poly.const(Fraction(1, 2))
+                else:
+                    _, lc = leading(a0)
+                    if lc < 0:
+                        at = Poly.atom(self.atoms.get("uf", (name, (-a0).key()), None))
+                        return (Poly.const(1) - at) if name == "Phi" else at
+            if name == "PhiInv" and len(args) == 1:
+                c0 = args[0].constant()
+                if c0 is not None and c0 == Fraction(1, 2):
+                    return Poly.const(0)
             return Poly.atom(self.atoms.get("uf", (name,) + tuple(a.key() for a in args), None))
         if kind == z3.Z3_OP_ADD:
             r = Poly()
